@@ -183,14 +183,20 @@ impl Append for RollingFileAppender {
             // data that comes in while we are processing the file rotation.
 
             self.policy.process(&mut file)?;
+            #[cfg(feature = "verif_hooks")]
+            crate::verif_hooks::critical_section_point("rolling:between-policy-and-write");
 
             let log_writer_new = self.get_writer(&mut writer)?;
             self.encoder.encode(log_writer_new, record)?;
             log_writer_new.flush()?;
         } else {
             self.encoder.encode(log_writer, record)?;
+            #[cfg(feature = "verif_hooks")]
+            crate::verif_hooks::critical_section_point("rolling:between-encode-and-flush");
             log_writer.flush()?;
             let len = log_writer.len;
+            #[cfg(feature = "verif_hooks")]
+            crate::verif_hooks::critical_section_point("rolling:between-write-and-policy");
 
             let mut file = LogFile {
                 writer: &mut writer,
